@@ -19,8 +19,11 @@ import (
 	"unsafe"
 )
 
-// SB is the virtual name of the sandbox in op lines and outputs; the executor substitutes the real path.
-const SB = "/SBX7"
+// SB is the virtual name of the sandbox top in op lines and outputs. The virtual world is the case directory (the
+// oracle's scope) taken as "/": the same 8 levels p1..p8 above the sandbox top exist on both sides, so a name that
+// climbs above the top and comes down again (through "sb") means the same place for the model and for the real code.
+const SB = vscopeFirst + "/p2/p3/p4/p5/p6/p7/p8/sb"
+const vscopeFirst = "/p1"
 
 type sandbox struct {
 	scope string // real directory the oracle watches: the case directory, several levels above top, so that
@@ -35,24 +38,18 @@ type sandbox struct {
 }
 
 func (s *sandbox) virt(p string) string {
-	if p == s.top {
-		return SB
-	}
-	if strings.HasPrefix(p, s.top+"/") {
-		return SB + p[len(s.top):]
+	if p == s.scope {
+		return "/"
 	}
 	if strings.HasPrefix(p, s.scope+"/") {
-		return "<above-sandbox>" + p[len(s.scope):]
+		return p[len(s.scope):]
 	}
 	return p
 }
 
 func (s *sandbox) real(p string) string {
-	if p == SB {
-		return s.top
-	}
-	if strings.HasPrefix(p, SB+"/") {
-		return s.top + p[len(SB):]
+	if p == vscopeFirst || strings.HasPrefix(p, vscopeFirst+"/") {
+		return s.scope + p
 	}
 	return p
 }
@@ -88,6 +85,14 @@ func newSandbox(scope, top, rootRel string, decoy func(dir string)) *sandbox {
 			decoy(d)
 		}
 	}
+	// a sibling that holds nothing but a well-formed decoy (a walk that gets there delivers it)
+	d := filepath.Join(parent, name+"-old")
+	must(os.MkdirAll(d, 0o755))
+	if decoy != nil {
+		decoy(d)
+	} else {
+		must(os.WriteFile(filepath.Join(d, "plain.txt"), []byte("OUTSIDE "+name+"-old\n"), 0o644))
+	}
 	return s
 }
 
@@ -104,6 +109,9 @@ func (s *sandbox) snapshot() map[string]string {
 			return nil
 		}
 		if p == s.root {
+			if !info.IsDir() {
+				return nil // (SkipDir on a file would skip the rest of the parent directory)
+			}
 			return filepath.SkipDir // the root entry and everything below belongs to the component
 		}
 		switch {
@@ -157,7 +165,7 @@ func (s *sandbox) watch() {
 	s.inoFd, s.wds, s.inoOK = fd, map[int32]string{}, true
 	_ = filepath.Walk(s.scope, func(p string, info os.FileInfo, err error) error {
 		if err != nil || !info.IsDir() {
-			return nil
+			return nil // (also the root, if a file stands in its place)
 		}
 		if p == s.root {
 			return filepath.SkipDir
